@@ -3104,7 +3104,19 @@ func (a *AccumulatedServiceOutput) Encode(e *Encoder) error {
 		return err
 	}
 
+	// A set is encoded in the order of its keys (service id, then hash), not in map iteration order
+	keys := make([]AccumulatedServiceHash, 0, len(*a))
 	for accumulatedServiceHash := range *a {
+		keys = append(keys, accumulatedServiceHash)
+	}
+	sort.Slice(keys, func(i, j int) bool {
+		if keys[i].ServiceID != keys[j].ServiceID {
+			return keys[i].ServiceID < keys[j].ServiceID
+		}
+		return bytes.Compare(keys[i].Hash[:], keys[j].Hash[:]) < 0
+	})
+
+	for _, accumulatedServiceHash := range keys {
 		// AccumulatedServiceHash
 		if err := accumulatedServiceHash.Encode(e); err != nil {
 			return err
